@@ -96,6 +96,41 @@ def stepped(cls, names, glb, owner=None):
     return out
 
 
+class _CallsToYieldFrom(ast.NodeTransformer):
+    """calls of plain names listed in ``calls`` become ``yield from <generator name>(...)``"""
+
+    def __init__(self, calls):
+        self.calls = calls
+
+    def visit_Call(self, node):
+        self.generic_visit(node)
+        if isinstance(node.func, ast.Name) and node.func.id in self.calls:
+            return ast.YieldFrom(ast.Call(ast.Name(self.calls[node.func.id], ast.Load()), node.args, node.keywords))
+        return node
+
+    def visit_Lambda(self, node):
+        return node
+
+
+def stepped_function(fn, name, glb, calls=None):
+    """statement-instrumented generator version of a plain function (also a closure's inner function): ``calls``
+    maps names the function calls to names (bound in ``glb``) of stepped generator functions"""
+    src = textwrap.dedent(getattr(fn, '__verif_source__', None) or inspect.getsource(fn))
+    tree = ast.parse(src)
+    tree = _Yieldify(name, set()).visit(tree)
+    if calls:
+        tree = _CallsToYieldFrom(calls).visit(tree)
+    tree.body[0].name = 'S_' + name
+    ast.fix_missing_locations(tree)
+    ns = dict(fn.__globals__)
+    if fn.__closure__:
+        for var, cell in zip(fn.__code__.co_freevars, fn.__closure__):
+            ns[var] = cell.cell_contents
+    ns.update(glb)
+    exec(compile(tree, '<stepped %s>' % name, 'exec'), ns)
+    return ns['S_' + name]
+
+
 def run_to_end(gen):
     """drive a stepped generator to completion; returns its return value"""
     try:
